@@ -35,7 +35,7 @@ def main():
     na = [{"property_id": "C%02d" % i, "reason": NA_REASON} for i in range(1, 21) if "C%02d" % i not in CLAIMED]
     m = {
         "version": 1,
-        "setup_cmd": "cd lean && lake build Fpy Driver fpydrv",
+        "setup_cmd": "cd lean && lake build Fpy fpydrv",
         "hooks": {"guard": "FPY_VERIF", "enable": "no hooks needed: every observable is reachable through the public API (scripted rng objects, subclassing)",
                   "baseline_off_cmd": "cd /repo && /venv/bin/python -m pytest -q -p no:cacheprovider --timeout=900", "source_commits": [], "add_only": True},
         "engines": [{"name": "fpy-lean", "path": "lean/", "serves_properties": sorted(CLAIMED),
